@@ -1193,6 +1193,21 @@ class Emitter:
                 for line in s.emit_instr(f, b, ins):
                     w("  " + line)
         w("}")
+        if s.opts.get('single_exit'):
+            # --single-exit: every `return x;` becomes `{ vf_ret = x; goto L__vf_exit; }` and the function returns in one place.  CBMC
+            # marks every local dead at every return statement: with thousands of locals (all declared at function level) and many
+            # returns (one per call that may throw) the goto program grows with their product
+            void = isinstance(s.resolve(f.ret), VoidTy)
+            n_ret = sum(len(re.findall(r'\breturn\b', x)) for x in L[1:-1])
+            if n_ret > 1:
+                body = []
+                for x in L[1:-1]:
+                    if void:
+                        x = re.sub(r'\breturn\s*;', 'goto L__vf_exit;', x)
+                    else:
+                        x = re.sub(r'\breturn\b\s*([^;]*);', lambda m: '{ vf_ret = (%s); goto L__vf_exit; }' % m.group(1), x)
+                    body.append(x)
+                L = [L[0]] + ([] if void else [f"  {s.cty(f.ret)} vf_ret;"]) + body + [" L__vf_exit: ;", "  return;" if void else "  return vf_ret;", "}"]
         return L
 
     def result_type(s, ins):
@@ -1752,6 +1767,7 @@ def main():
     ap.add_argument('--split-index', type=int, default=0, help='case-split variable indices into arrays of at most N elements')
     ap.add_argument('--typed-new', action='store_true', help='operator new of a constant size that is used as one struct type: allocate with sizeof(that type)')
     ap.add_argument('--inline-gep', action='store_true', help='write address computations (getelementptr, pointer bitcasts) out at every use')
+    ap.add_argument('--single-exit', action='store_true', help='one return statement per function (returns become a jump to it)')
     ap.add_argument('--typed-memset', action='store_true', help='memset( p, 0, constant ) over one whole aggregate: assign a typed zero object')
     ap.add_argument('--typed-exc', action='store_true', help='__cxa_allocate_exception of a constant size that is used as one struct type: allocate with sizeof(that type)')
     ap.add_argument('--split-store', type=int, default=0, help='byte stores at a variable index: case split over the index 0 .. N-1 (constant offsets)')
@@ -1759,7 +1775,7 @@ def main():
     ap.add_argument('--eh-nested', action='store_true', help='stack of handled exceptions, type of thrown objects, base-class offsets in handlers (nested_exception, current_exception)')
     a = ap.parse_args()
     m = parse_module(open(a.ll).read())
-    em = Emitter(m, {'include': a.include, 'ubcheck': a.ubcheck, 'cut': a.cut, 'split_index': a.split_index, 'inline_gep': a.inline_gep, 'typed_memset': a.typed_memset, 'typed_new': a.typed_new,
+    em = Emitter(m, {'include': a.include, 'ubcheck': a.ubcheck, 'cut': a.cut, 'split_index': a.split_index, 'inline_gep': a.inline_gep, 'typed_memset': a.typed_memset, 'single_exit': a.single_exit, 'typed_new': a.typed_new,
                      'vcall': a.vcall, 'eh_nested': a.eh_nested, 'split_store': a.split_store, 'typed_exc': a.typed_exc})
     c = em.emit()
     if a.header:
